@@ -22,6 +22,7 @@ META = {
     "design_ref": "DESIGN.md §4.1 C08",
 }
 SPEC = "specs/SigningGroup"
+MSPEC = "specs/SigningMachine"
 PKG = "pkg/tbtc"
 ACTIONS = ["DoSelectExcluded", "DoMarkExcluded", "DoBuildKeygenParty", "KeygenCompletes", "DoRegister", "NoWallet",
            "DoChooseSigners", "DoBuildSigningParty", "SignCompletes"]
@@ -117,26 +118,79 @@ def run(ctx):
         ctx.broken("case set lacks shifted / below-quorum cases")
     if any(c["outcome"] not in ("valid", "nowallet") for c in cases):
         ctx.broken("model emitted a terminal state that is neither valid nor nowallet")
+    # 2b. the signing protocol as a message-driven machine under per-receiver delivery orders: early messages are retained
+    #     by every state (EarlyRetained), every honest quorum completes under fairness (Completes); the variant in which the
+    #     silent symmetric-key state ignores messages is refuted on both
+    MALL = ["DoStart", "DoInitiate", "DoTransition", "DoFinish", "DoDeliver"]
+    for cfg in ctx.pick(["MC_S2"], ["MC_S2", "MC_S2intruder", "MC_S3"]):
+        r = ctx.tlc(MSPEC, "MC_SigningMachine", cfg=cfg, coverage=True, label=cfg, timeout=ctx.pick(900, 3000))
+        ctx.require_coverage(r, MALL + (["DoDeliverDup", "DoDeliverForged"] if cfg == "MC_S2" else []), cfg)
+    ctx.tlc(MSPEC, "MC_SigningMachine", cfg="MC_Live", label="MC_Live", timeout=1500)
+    hz = ctx.tlc(MSPEC, "MC_SigningMachine", cfg="MC_HzSilent", label="MC_HzSilent", expect=("violation",))
+    if hz.violated != "EarlyRetained":
+        ctx.broken("MC_HzSilent: expected EarlyRetained to be violated, got %s" % hz.violated)
+    hz = ctx.tlc(MSPEC, "MC_SigningMachine", cfg="MC_HzSilentLive", label="MC_HzSilentLive", expect=("violation",))
+    if hz.violated != "TemporalProperty":
+        ctx.broken("MC_HzSilentLive: expected Completes to be violated, got %s" % hz.violated)
+    sbeh, retention, skewed = [], [], []
+    for cfg, num in ctx.pick([("Gen_S3of4", 12), ("Gen_Real", 4)], [("Gen_S3of4", 100), ("Gen_S3of5", 60), ("Gen_Real", 12)]):
+        cfg_text = None
+        if cfg == "Gen_Real":
+            # steer one seeded signer's schedule (see Gen_SigningMachine.Skew)
+            import os
+            cfg_text = open(os.path.join(os.path.dirname(__file__), "..", "..", MSPEC, "Gen_Real.cfg")).read().replace(
+                "Skew = 2", "Skew = %d" % rnd.choice([1, 2, 4]))
+        gm = ctx.tlc(MSPEC, "Gen_SigningMachine", cfg=None if cfg_text else cfg, cfg_text=cfg_text, mode="simulate", num=num, depth=900, workers=1, label=cfg,
+                     dump_trace=False, timeout=ctx.pick(900, 3000))
+        got = ctx.read_emitted(gm, "sbehaviours.ndjson")
+        if len(got) < num // 2:
+            ctx.broken("simulation %s emitted only %d behaviours for %d traces" % (cfg, len(got), num))
+        rt = ctx.read_emitted(gm, "retention.ndjson")
+        if len(rt) != 1 or len(rt[0]["table"]) != 120:
+            ctx.broken("simulation %s did not emit the 12 x 10 retention table" % cfg)
+        if cfg == "Gen_Real":
+            skewed = got
+        else:
+            sbeh += got
+            retention = retention or rt
+
+    def _silent(b):
+        """per receiver: peers' round-one messages handed over while the receiver is in the silent symmetric-key state"""
+        per = {}
+        for st in b["steps"]:
+            if st["a"] == "Deliver" and st["at"] == 2 and st["kind"] == "genuine" and st["m"]["t"] == 3:
+                per[st["i"]] = per.get(st["i"], 0) + 1
+        return max(per.values()) if per else 0
+    nsil = sum(1 for b in sbeh for st in b["steps"] if st["a"] == "Deliver" and st["at"] == 2 and st["kind"] == "genuine")
+    ctx.note("signing machine behaviours: %d (%d deliveries in the silent state)" % (len(sbeh), nsil))
+    if nsil < 5:
+        ctx.broken("generated signing behaviours lack deliveries in the silent state")
+    skewed.sort(key=lambda b: -_silent(b))
+    skewed = skewed[:ctx.pick(1, 3)]
+    if not skewed or _silent(skewed[0]) < 2:
+        ctx.broken("no generated behaviour hands both peers' round-one messages to a signer in its silent state")
+    ctx.note("skewed real runs: %s" % [_silent(b) for b in skewed])
     # 3. every case on the real code of all stages + real signing of chosen quorums (one test binary)
     runs = _runs(cases, ctx.pick(3, 12), rnd)
     if not any(r["intruders"] for r in runs):
         ctx.broken("no real signing run with unselected signers")
     ctx.note("real signing runs: %s" % [(r["excluded"], r["signers"], r["intruders"]) for r in runs])
-    inputs = {"cases.ndjson": cases, "runs.ndjson": runs}
-    tests = "^TestVerif_C08_(Pipeline|Sign)$"
+    inputs = {"cases.ndjson": cases, "runs.ndjson": runs, "sbehaviours.ndjson": sbeh, "retention.ndjson": retention,
+              "skewed.ndjson": skewed}
+    tests = "^TestVerif_C08_(Pipeline|Machine|Sign|Skewed)$"
     if ctx.thorough:
         excl = rnd.choice([[1], [2], [3], [4], [5]])
         ops = [m for m in range(1, 6) if m not in excl]
         # final indices 1..4; quorums chosen so that every final index signs at least once
         sets = [[1, 2, 3], [2, 3, 4], [1, 3, 4]]
         inputs["keygenruns.ndjson"] = [{"n": 5, "h": 3, "quorum": 4, "excluded": excl, "operating": ops, "signerSets": sets}]
-        tests = "^TestVerif_C08_(Pipeline|Sign|KeygenSign)$"
-    go = _gotest(ctx, ["pkg/tecdsa/signing", "pkg/tecdsa/dkg", "pkg/tbtc", "pkg/protocol/state"], PKG, tests, ["c08_test.go"], inputs=inputs, extra_overlay=OVERLAY, label="c08",
+        tests = "^TestVerif_C08_(Pipeline|Machine|Sign|Skewed|KeygenSign)$"
+    go = _gotest(ctx, ["pkg/tecdsa/signing", "pkg/tecdsa/dkg", "pkg/tbtc", "pkg/protocol/state"], PKG, tests, ["c08_test.go", "c08_machine_test.go"], inputs=inputs, extra_overlay=OVERLAY, label="c08",
                     env={"VERIF_SIGN_BUDGET_S": ctx.pick(420, 900), "VERIF_KEYGEN_BUDGET_S": 1500},
                     timeout=ctx.pick(1500, 5400))
     if go is not None:
         ctx.absorb(go)
-    want = {"pipeline", "sign"} | ({"keygensign"} if ctx.thorough else set())
+    want = {"pipeline", "machine", "sign", "skewed"} | ({"keygensign"} if ctx.thorough else set())
     if go is not None and set(go.reports) != want and not ctx.violations:
         ctx.broken("harness reports missing: %s" % sorted(go.reports))
     if not ctx.violations:
@@ -147,6 +201,12 @@ def run(ctx):
                 ctx.broken("pipeline replay never exercised %s" % need)
         if (h.get("sign", {}).get("counters") or {}).get("real_signings", 0) < len(runs):
             ctx.broken("fewer real signing runs than requested")
+        mc = (h.get("machine", {}).get("counters") or {})
+        if mc.get("retention_cells", 0) < 120 or mc.get("silent_state_deliveries", 0) < 5 or not mc.get("early_deliveries"):
+            ctx.broken("machine replay did not cover the retention table / silent-state deliveries: %s" % mc)
+        sk = (h.get("skewed", {}).get("counters") or {})
+        if sk.get("real_signings", 0) < len(skewed) or sk.get("silent_window_deliveries", 0) < 2:
+            ctx.broken("the skewed real signing run did not hand the round-one messages over in the silent state: %s" % sk)
         if ctx.thorough and (h.get("keygensign", {}).get("counters") or {}).get("real_keygens", 0) < 1:
             ctx.broken("the real key generation did not run")
     return ctx.finish(
